@@ -432,6 +432,18 @@ def case_init(tag, pad=3, funcs=0):
     return [m.cmd(), "load o1 %s/m" % d, exp]
 
 
+def case_init_pair(tag, pad=3):
+    """two programs compiled one after the other whose only initialisers are on the SAME line: the line bookkeeping of
+    the initialiser block must start afresh for every compilation"""
+    d = "/c18/%s" % tag
+    a = Src("%s/a.c" % d)
+    a.text("int x_;\nint y_;\nvoid set_oid(string s) {}\n")
+    a.pad("n", pad)
+    a.text("int a_ = 7 + x_;\n")
+    lines = case_init(tag, pad=pad, funcs=0)
+    return [a.cmd(), lines[0], "load o4 %s/a" % d] + lines[1:]
+
+
 def case_reinclude(tag, first_ok=False):
     """the same header included twice; the failing statement is in the second (or, first_ok, the first) copy"""
     d = "/c18/%s" % tag
@@ -529,13 +541,13 @@ def case_multi_include(tag, variant, rng=None):
 class C18(Prop):
     id = "C18"
     title = "Runtime errors are reported at the right file and line with a correct trace"
-    lean_modules = ["NV.C18.Props", "NV.C18.Witness"]
+    lean_modules = ["NV.C18.Props", "NV.C18.Witness", "NV.C18.SourceTexts"]
     theorems = ["NV.C18.line_roundtrip_raw", "NV.C18.line_roundtrip", "NV.C18.long_statement_ok",
                 "NV.C18.file_roundtrip", "NV.C18.file_roundtrip_ids", "NV.C18.file_roundtrip_partial",
                 "NV.C18.fresh_idsOf", "NV.C18.trace_order",
                 "NV.C18.runEms_li", "NV.C18.translateAbs_at", "NV.C18.widths_agree",
                 "NV.C18.pass1Continues_iff", "NV.C18.scanContinues_iff", "NV.C18.split_agrees",
-                "NV.C18.apply_paths_store_table_index", "NV.C18.apply_frame_named"]
+                "NV.C18.apply_paths_store_table_index", "NV.C18.apply_frame_named", "NV.C18.source_statements_agree"]
     witness_theorems = ["NV.C18.file_roundtrip_Full_false", "NV.C18.line_roundtrip_Full_false",
                         "NV.C18.reinclude_wrong", "NV.C18.reinclude_repaired", "NV.C18.wide_wrong", "NV.C18.signed_short_wrong",
                         "NV.C18.init_block_only_noted", "NV.C18.init_replay"]
@@ -574,7 +586,12 @@ class C18(Prop):
             "literal, multi-line and long statements, saved binary) + seeded random program families (1-4 child "
             "functions, 0-3 inherited functions, include depth 0-3 each, call styles return/assign/function "
             "literal/catch/multi-line, 8 failing statement kinds, paddings of 0..63000 blank/comment lines and 0..200 "
-            "filler statements, #pragma save_binary reload); a case is non-trivial when its trace has >= 2 lines; "
+            "filler statements, #pragma save_binary reload of every program of the family; every scenario runs 1-3 times in "
+            "one driver (apply cache miss and hit paths) and is started by an apply, reset_object, a heart beat, a call_out "
+            "or create() of a clone; next function reached by local call, ::, call_other, ->, simul_efun, function "
+            "pointers (literal, nested, multi-line, local function, efun, simul_efun), another object; files end with / "
+            "without newline, blank lines, code on the last line, one-line includes; headers included repeatedly / "
+            "recursively; global initialisers); a case is non-trivial when its trace has >= 2 lines; "
             "distinct = distinct canonical implementation trace")
     not_covered = ["which source line the parser attributes to a parse node (LALR look-ahead may move it inside the "
                    "statement; the oracle accepts any line of the statement's extent)",
@@ -603,6 +620,55 @@ class C18(Prop):
         if m:
             return "¬ (a %s b)" % self.LEAN_OP[m.group(1)], m.group(0)
         raise X.TieBroken(site, "loop guard over %s and %s no longer has a known shape" % (lhs, rhs))
+
+    @staticmethod
+    def _lines(text, start, end, keep=None, site="?"):
+        """normalised source lines of the region start..end (markers included): hook blocks and comments removed,
+        braces dropped, trailing `;` stripped; `keep` = regex a line must match"""
+        i = text.find(start)
+        j = text.find(end, i + 1) if i >= 0 else -1
+        if i < 0 or j < 0:
+            raise X.TieBroken(site, "region %r .. %r not found" % (start, end))
+        reg = text[i:j + len(end)]
+        reg = re.sub(r"(?s)#ifdef NEOLITH_VERIF.*?#endif", "", reg)
+        reg = re.sub(r"(?s)/\*.*?\*/", "", reg)
+        out = []
+        for ln in reg.split("\n"):
+            ln = re.sub(r"//.*$", "", ln)
+            ln = re.sub(r"\s+", " ", ln).strip().rstrip(";").strip()
+            if ln in ("", "{", "}") or ln.startswith("#"):
+                continue
+            if keep and not re.search(keep, ln):
+                continue
+            out.append(ln)
+        return out
+
+    def source_statements(self):
+        """the hand-modelled statements of the anchor code, as they are in the source now (-> Gen, compared with the
+        texts the model was written from by the obligation `source_statements_agree`)"""
+        R = lambda *p: open(os.path.join(E.REPO, *p)).read()
+        lex, icode, prog, sim, comp, pt = (R("lib/lpc/lex.c"), R("lib/lpc/program/icode.c"), R("lib/lpc/program.c"),
+                                           R("src/simulate.c"), R("lib/lpc/compiler.c"), R("lib/lpc/program/parse_trees.c"))
+        L = self._lines
+        k = r"current_line|save_file_info|current_file_id|is->line|is->file_id"
+        return [
+            ("srcIncludeDirective", L(lex, 'if (!strcmp ("include", yytext))', "handle_include (arg, 0);", r"current_line|handle_include", "lex:include-directive")),
+            ("srcHandleInclude", L(lex, "is->yyin_desc = yyin_desc;", "yyin_desc = fd;", k, "lex:handle_include")),
+            ("srcIncludePop", L(lex, "close (yyin_desc);", "incnum--;", k + r"|p->line|p->file_id", "lex:include-pop")),
+            ("srcFinalProgram", L(icode, "i_generate_final_program (int x)", "generate line numbers for the end */", r"save_file_info|switch_to_line", "icode:final")),
+            ("srcNodeLine", sorted(set(L(pt, "parse_node_t* new_node ()", "get a new node to add to the tree, but", r"->line =", "parse_trees:new_node")))),
+            ("srcInitParser", L(icode, "\ni_initialize_parser ()", "last_size_generated = 0;\n  init_line_being_generated = 0;", r"_generated", "icode:i_initialize_parser")),
+            ("srcSwitchToLine", L(icode, "static void switch_to_line (int line) {", "\n  line_being_generated = line;", None, "icode:switch_to_line")),
+            ("srcGenerateNodeLine", L(icode, "void i_generate_node (parse_node_t * expr) {", "switch (expr->kind)", r"line", "icode:i_generate_node")),
+            ("srcPlaceInit", L(icode, "i_generate___INIT ()", "prog_code = mem_block[A_PROGRAM].block + mem_block[A_PROGRAM].current_size;", None, "icode:__INIT")),
+            ("srcSaveFileInfo", L(comp, "void save_file_info (int file_id, int lines) {", "add_to_mem_block (A_FILE_INFO", r"fi\[|add_to_mem_block", "compiler:save_file_info")),
+            ("srcProgramFileId", L(comp, "static int program_file_id (const char *name, int top) {", "return file_id;", None, "compiler:program_file_id")),
+            ("srcTranslate", L(prog, "int translate_absolute_line (", "return 0;", None, "program:translate_absolute_line")),
+            ("srcFindLine", L(sim, "static int find_line (", "return 4;\n}", None, "simulate:find_line")),
+            ("srcTraceFrames", L(sim, "array_t* get_svalue_trace (int how) {", "return v;", r"add_mapping_(string|object|pair) \(m|get_trace_details|line_number_info|framekind|for \(p|allocate_empty_array \(\(csp", "simulate:get_svalue_trace")),
+            ("srcErrorMapping", L(R("src/error_context.c"), "static void mudlib_error_handler (", "push_refed_mapping (m);", r"add_mapping|get_line_number_info|if \(current", "error_context:mudlib_error_handler")),
+            ("srcPushControl", L(R("src/frame.c"), "void push_control_stack (int frkind) {", "csp->pc = pc;", r"csp", "frame:push_control_stack")),
+        ]
 
     def gen_extra(self, ctx, bdir):
         """the guards of the three scan loops, transcribed from the source (regex over the function bodies)"""
@@ -646,6 +712,9 @@ class C18(Prop):
         out.append("def splitBound : Nat := %s" % m.group(2))
         out.append("def splitLen : Nat := %s" % m2[0])
         out.append("def splitDec : Nat := %s" % m3.group(1))
+        out.append("\n/-! the statements the model was written from, as they are in the source now -/")
+        for name, lines in self.source_statements():
+            out.append("def %s : List String := [\n  %s]" % (name, ",\n  ".join('"%s"' % l.replace("\\", "\\\\").replace('"', '\\"') for l in lines)))
         return "\n".join(out)
 
     def prepare(self, ctx):
@@ -695,7 +764,8 @@ class C18(Prop):
                 out.append(E.Case("g%d" % i, case_multi_include(tag, v, rng), {"fail": "reinclude", "origin": "generated"}))
                 continue
             if rng.chance(1, 20):
-                out.append(E.Case("g%d" % i, case_init(tag, pad=rng.range(0, 300), funcs=rng.range(0, 4)),
+                out.append(E.Case("g%d" % i, case_init_pair(tag, pad=rng.range(0, 300)) if rng.chance(1, 3) else
+                                  case_init(tag, pad=rng.range(0, 300), funcs=rng.range(0, 4)),
                                   {"fail": "init", "origin": "generated"}))
                 continue
             big = rng.chance(1, 12) if tier != "thorough" else rng.chance(1, 10)
@@ -772,12 +842,22 @@ class C18(Prop):
            **g.meta)
         mk("init", case_init("b_init"), fail="init")
         mk("init-after-functions", case_init("b_init2", pad=40, funcs=3), fail="init")
+        mk("init-after-other-compile", case_init_pair("b_init3", pad=3), fail="init")
+        mk("init-after-other-compile-far", case_init_pair("b_init4", pad=300), fail="init")
         for v in ("again", "self", "back"):
             mk("multi-include-" + v, case_multi_include("b_mi_" + v, v), fail="reinclude")
             mk("multi-include-pad-" + v, case_multi_include("b_mip_" + v, v, rng), fail="reinclude")
         mk("reinclude-second", case_reinclude("b_reinc"), fail="reinclude")
         mk("reinclude-first", case_reinclude("b_reinc1", first_ok=True), fail="reinclude-first")
         return B
+
+    def extra_checks(self, ctx, tier, rng):
+        """the oracle's own positive / negative examples (lean/NV/C18/OracleTests.lean)"""
+        p = E.run([E.nvdrive_exe(), "C18", "selftest"])
+        if p.returncode == 0 and p.stdout.startswith("selftest ok"):
+            self.selftest = p.stdout.strip()
+            return []
+        return [{"kind": "obligation-broken", "name": "oracle-selftest", "detail": (p.stdout + p.stderr)[-500:]}]
 
     def histogram(self, cases, impl):
         h = {"binary_all_reloaded_from_binary": 0, "binary_some_recompiled": 0, "fail": {}, "calls": {}, "depth": {}, "slots": {}, "inherit": 0, "binary": 0, "caught": 0, "long": 0,
